@@ -69,7 +69,13 @@ fn exposed(n: &RelationWithRewritingRule, protected: &BTreeSet<String>, bad: &mu
 
 pub fn check(sc: &Scenario, ex: &mut Exec) -> (Verdict, Option<String>) {
     let mut violations = vec![];
-    let protected: BTreeSet<String> = sc.pu.entries.iter().map(|e| e.table.clone()).collect();
+    // relation names of the protected tables (an entry may use the path or the relation name)
+    let protected: BTreeSet<String> = sc
+        .pu
+        .entries
+        .iter()
+        .map(|e| sc.table(&e.table).map(|t| t.relation_name().to_string()).unwrap_or(e.table.clone()))
+        .collect();
 
     // ---- (b) label-level reading on every candidate derivation the public pipeline returns
     let label_result = {
